@@ -48,8 +48,8 @@ var (
 
 func init() {
 	core.Register(&core.Check{
-		ID: "C28VM", Level: "exploration",
-		Rule: "loop `scripts`: one case = one generated machine-runtime script of one of 10 kinds (literal-asset send / send-all, asset / monetary / account variables, account / asset / monetary sourced from meta(), balance() of a literal asset, allotment+in-order+max+save with literal assets, monetary arithmetic) " +
+		ID: "C28", Level: "exploration",
+		Rule: "loops `commit`/`import`: creates through the full controller stack over memstore by postings, machine and interpreter scripts (literal and variable edge assets / accounts, meta()-sourced accounts) and imports of export streams with one posting field made ill-formed; every transaction the store COMMITTED is scanned against the documented patterns. loop `scripts`: one case = one generated machine-runtime script of one of 10 kinds (literal-asset send / send-all, asset / monetary / account variables, account / asset / monetary sourced from meta(), balance() of a literal asset, allotment+in-order+max+save with literal assets, monetary arithmetic) " +
 			"whose asset literals are drawn from the edges of the lexer rule ASSET=[A-Z/0-9]+ (leading slash/digit, double/trailing/multiple slashes, 17/18-char bases, 6/7-digit precisions, random strings over the lexer alphabet) and whose variable / metadata values are drawn from edge pools " +
 			"(lower case, underscores, blanks, newlines, non-ASCII, empty, `a::b`, leading/trailing colon, negative / signed / hex / huge amounts); executed through compile+vm.Machine+vm.Run and through ledgercontroller.DefaultNumscriptParser.Parse+Execute over a fake store; every posting of every successful run is checked. " +
 			"Shape = (kind, class of the asset used, class of the account values, amount class, outcome). Non-trivial = the run succeeded with at least one posting and at least one of the values fed in is an edge value (not a plain valid one). " +
@@ -60,7 +60,7 @@ func init() {
 			"the fake store answers every balance query with the configured balance (default 1000) and serves the configured account metadata verbatim",
 			"a posting returned by a successful run is taken to be what would be committed; runs that return an error are only counted",
 		},
-		Run: runC28VM,
+		Run: func(r *core.Run) { runC28VM(r); runC28Committed(r) },
 	})
 }
 
